@@ -515,6 +515,81 @@ def shrink_seq(prog_sx, vhdl, seq):
     return seq
 
 
+def prog_variants(prog):
+    """one-step reductions of a program: drop a statement, replace a compound statement by one of its bodies"""
+    def block_variants(b):
+        for i, st in enumerate(b):
+            yield b[:i] + b[i + 1 :]
+            if st[0] == "if":
+                yield b[:i] + st[2] + b[i + 1 :]
+                yield b[:i] + st[3] + b[i + 1 :]
+                for v in block_variants(st[2]):
+                    yield b[:i] + [("if", st[1], v, st[3])] + b[i + 1 :]
+                for v in block_variants(st[3]):
+                    yield b[:i] + [("if", st[1], st[2], v)] + b[i + 1 :]
+            elif st[0] == "while":
+                for v in block_variants(st[2]):
+                    yield b[:i] + [("while", st[1], v)] + b[i + 1 :]
+            elif st[0] == "call":
+                pass
+    for v in block_variants(prog["body"]):
+        yield {"body": v, "subs": prog["subs"]}
+    for k, sb in enumerate(prog["subs"]):
+        for v in block_variants(sb):
+            if v:
+                yield {"body": prog["body"], "subs": prog["subs"][:k] + [v] + prog["subs"][k + 1 :]}
+
+
+def _valid(prog):
+    """break/continue only inside loops (a reduction may have removed the loop)"""
+    def ok(b, in_loop):
+        for st in b:
+            if st[0] in ("brk", "cont") and not in_loop:
+                return False
+            if st[0] == "if" and not (ok(st[2], in_loop) and ok(st[3], in_loop)):
+                return False
+            if st[0] == "while" and not ok(st[2], True):
+                return False
+        return True
+    return ok(prog["body"], False) and all(ok(sb, False) for sb in prog["subs"])
+
+
+def program_fails(prog, rng_seed=1):
+    """does this program still show a property failure on the current tree? returns (seq, info) or None"""
+    import random
+    src, sx = render_source(prog), prog_sexp(prog)
+    r = fork_map(compile_task, [src])[0]
+    if r[0] != "ok" or not r[1]["ok"]:
+        return None
+    rr = random.Random(rng_seed)
+    seqs = [list(q) for q in itertools.product([0, (1 << NC) - 1], repeat=6)] + gen_inputs(rr, 40, 40)
+    try:
+        bad = end_to_end(sx, r[1]["vhdl"], seqs)
+    except Exception:
+        return None
+    if bad is None:
+        return None
+    return bad, src, sx, r[1]
+
+
+def shrink_program(prog, budget=80):
+    cur = prog
+    progress = True
+    while progress and budget > 0:
+        progress = False
+        for v in prog_variants(cur):
+            if budget <= 0:
+                break
+            if not v["body"] or not _valid(v):
+                continue
+            budget -= 1
+            if program_fails(v) is not None:
+                cur = v
+                progress = True
+                break
+    return cur
+
+
 def run(ctx: Ctx):
     rng = ctx.rng
     ctx.rule = ("coroutine bodies generated over the grammar act | await cond | await true | await false | if/else | "
@@ -599,6 +674,13 @@ def run(ctx: Ctx):
                 break
         if bad is not None:
             n_e2e_bad += 1
+            if n_e2e_bad > 4:
+                continue  # enough minimised replays; the count is reported in the obligation
+            small = shrink_program(p)
+            pf = program_fails(small)
+            if pf is not None:
+                (bad, src, sx, rr2) = pf
+                vhdl, sm = rr2["vhdl"], rr2.get("sm")
             seq = shrink_seq(sx, vhdl, bad[0])
             b2 = end_to_end(sx, vhdl, [seq])
             ctx.report("c01:trace:" + sx[:200],
